@@ -199,6 +199,32 @@ func (c *Ctx) Eq(a, b *Term) *Term {
 			return c.Not(a)
 		}
 	}
+	// x*k == y*k  <=>  x == y  for odd k (multiplication by an odd constant is a bijection mod 2^w)
+	if a.Op == "bvmul" && b.Op == "bvmul" && a.Args[1].IsConst() && b.Args[1].IsConst() &&
+		a.Args[1].C == b.Args[1].C && a.Args[1].C&1 == 1 {
+		return c.Eq(a.Args[0], b.Args[0])
+	}
+	// x^z == y^z  <=>  x == y
+	if a.Op == "bvxor" && b.Op == "bvxor" {
+		for i := 0; i < 2; i++ {
+			for j := 0; j < 2; j++ {
+				if a.Args[i] == b.Args[j] {
+					return c.Eq(a.Args[1-i], b.Args[1-j])
+				}
+			}
+		}
+	}
+	// a == b  <=>  a^b == 0: lets the xor cancellation (also across the segment normal form) remove
+	// what both sides share; taken only when it makes progress
+	if a.W > 1 && (a.Op == "bvxor" || b.Op == "bvxor" || a.Op == "concat" || b.Op == "concat") {
+		d := c.BvXor(a, b)
+		if d.IsConst() {
+			return c.Bool(d.C == 0)
+		}
+		if d.Op == "bvxor" && !(d.Args[0] == a && d.Args[1] == b) && !(d.Args[0] == b && d.Args[1] == a) {
+			return c.Eq(d.Args[0], d.Args[1])
+		}
+	}
 	if a.ID > b.ID {
 		a, b = b, a
 	}
